@@ -181,7 +181,7 @@ TRUSTED = [
     "that entered the router; a 2^-48 chance collision can only make a monitor accept",
     "one router per scenario, built by router.VerifNewDP in the order of control.ConfigDataplane on real udpip links "
     "over an in-memory connection opener; packets enter through processPkt with the real link object",
-    "time: hop fields expire >= 50 min before / >= 5 h after the run, EPIC timestamps are >= 1 s inside or >= 57 s "
+    "time: hop fields expire >= 50 min before / >= 5 h after the run, EPIC timestamps are >= 1 s inside, >= 1 s too old (a stall only ages a packet) or >= 14 s ahead "
     "outside the freshness window; no verdict depends on a smaller wall-clock distance",
 ]
 
